@@ -107,6 +107,7 @@ func TestC17(t *testing.T) {
 		}
 		// several reads on one connection, an ordinary read in between (cursor independence)
 		run(im.name, []Req{mkReq(opOpenFile, "/"+im.name), cdReq(3, 2), rdcReq(100, 50), cdReq(0, 1), cdReq(17, 3)})
+		run(im.name, []Req{mkReq(opOpenFile, "/"+im.name), cdReq(3, 2), rdReq(7, 100), cdReq(5, 2), rdcReq(0, 2048), cdReq(7, 1), cdReq(8, 3), rdReq(24+11*2048, 10), cdReq(11, 1)})
 		run(im.name, []Req{mkReq(opOpenFile, "/"+im.name), mkReq(opOpenFile, "/CLOSEFILE"), cdReq(0, 1)})
 		// re-opening images of a different sector size on one connection
 		for j, other := range imgs {
